@@ -297,3 +297,9 @@ Qed.
 
 Lemma vnorm2_nonneg v : 0 <= vnorm2 v.
 Proof. destruct v as [x y z]; munfold. nra. Qed.
+
+(* fast goal-only normalisation of matrix expressions (cbv restricted to the matrix vocabulary) *)
+Ltac mcbv :=
+  cbv beta iota zeta delta [is_rot is_orth upper_posdiag upper minv mmul mtrans mscale madd msub mdet madj mvmul
+    vnorm vnorm2 vdot vcross vscale vadd vsub mtrace mI mZ mrow0 mrow1 mrow2 mcol0 mcol1 mcol2 Rx Ry Rz
+    m00 m01 m02 m10 m11 m12 m20 m21 m22 vx vy vz c0 c1 c2 c3 c4 c5 p0 p1].
